@@ -30,21 +30,29 @@ Uniq(seed, i, j) == (i * 3 + j * 5 + seed) % 7
 NChunks(n) == (n + ChunkSize - 1) \div ChunkSize
 ChunkOf(n, c) == ((c - 1) * ChunkSize + 1)..(IF c * ChunkSize < n THEN c * ChunkSize ELSE n)
 
+\* TIED predictions (tol2 = 7): every sample predicts the same vector whose maximum is attained at the first AND the last
+\* position; the labels cycle through all positions.  "Arg-max agreement" is agreement with a single-valued arg-max: whichever
+\* of the tied positions the rule picks, only the samples labelled with THAT position score (MeanAcc for the last position,
+\* MeanAccFirst for the first).
+Tied(len, j) == IF j = 1 \/ j = len THEN 9 ELSE j
+
 \* targets for the arg-max rule: strict one-hot (tol2 = 1), graded scores with a unique maximum (tol2 = 3) or signed ones (tol2 = 5; the
 \* tolerance is irrelevant for this rule, so the field doubles as the target style)
 MkData(n, len, rule, tol2, obj, seed) ==
   [n |-> n, len |-> len, rule |-> rule, tol2 |-> tol2, obj |-> obj, seed |-> seed,
-   preds   |-> [i \in 1..n |-> [j \in 1..len |-> IF rule = "argmax" THEN Uniq(seed, i, j) ELSE Val(seed, i * 11 + j)]],
+   preds   |-> [i \in 1..n |-> [j \in 1..len |-> IF rule = "argmax" THEN (IF tol2 = 7 THEN Tied(len, j) ELSE Uniq(seed, i, j))
+                                                  ELSE Val(seed, i * 11 + j)]],
    targets |-> [i \in 1..n |-> [j \in 1..len |->
                   IF rule = "argmax"
                     THEN (IF tol2 = 1 THEN (IF j = ((i * 2 + seed) % len) + 1 THEN 1 ELSE 0)
+                          ELSE IF tol2 = 7 THEN (IF j = ((i + seed) % len) + 1 THEN 1 ELSE 0)
                           ELSE IF tol2 = 3 THEN Uniq(seed + 2, i + 1, j + 3)
                           ELSE Uniq(seed + 2, i + 1, j + 3) - 4)        \* signed scores (e.g. a -1 / +1 coding): most are negative
                   ELSE Val(seed + 3, i * 13 + j) \div 2]]]
 
 Datasets ==
   {MkData(n, len, rule, tol2, obj, seed) :
-     n \in Ns, len \in Lens, rule \in {"argmax", "tol"}, tol2 \in {1, 3, 5}, obj \in {"ae", "mse"}, seed \in Seeds}
+     n \in Ns, len \in Lens, rule \in {"argmax", "tol"}, tol2 \in {1, 3, 5, 7}, obj \in {"ae", "mse"}, seed \in Seeds}
 
 \* ---- per-sample scores -------------------------------------------------------------
 Within(d, i, j) == 2 * Abs(d.preds[i][j] - d.targets[i][j]) < d.tol2
@@ -60,6 +68,11 @@ LossNum(d, i) ==
 
 MeanLoss(d) == [n |-> SumF([i \in 1..d.n |-> LossNum(d, i)]), d |-> d.len * d.n]
 MeanAcc(d)  == [n |-> SumF([i \in 1..d.n |-> AccNum(d, i)]),  d |-> d.len * d.n]
+\* the same under the OTHER single-valued tie rule (first maximum, for predictions and targets alike)
+ArgMaxFirst(v) == CHOOSE i \in 1..Len(v) : (\A j \in 1..Len(v) : v[j] <= v[i]) /\ (\A j \in 1..(i - 1) : v[j] < v[i])
+MeanAccFirst(d) ==
+  IF d.rule # "argmax" THEN MeanAcc(d)
+  ELSE [n |-> SumF([i \in 1..d.n |-> IF ArgMaxFirst(d.targets[i]) = ArgMaxFirst(d.preds[i]) THEN d.len ELSE 0]), d |-> d.len * d.n]
 
 \* ---- the parallel map ------------------------------------------------------------------
 Init == /\ ds \in Datasets
